@@ -185,6 +185,24 @@ def _finite_key(ff: FuncFacts, e) -> bool:
     literal display): writing under it overwrites a fixed set of slots"""
     if e is None:
         return False
+    # `for key, value in {"a": x, "b": y}.items()` (the display possibly bound to a local first)
+    if isinstance(e, ast.Name):
+        from .common import inline_locals
+        ds = ff.rd.reaching(e.id, ff.node_of(e))
+        if ds and all(isinstance(d.stmt, ast.For) and tuple(d.index) in ((0,), ()) for d in ds):
+            oks = []
+            for d in ds:
+                it = d.stmt.iter
+                okd = False
+                if isinstance(it, ast.Call) and isinstance(it.func, ast.Attribute) and it.func.attr in ("items", "keys") and not it.args and tuple(d.index) == ((0,) if it.func.attr == "items" else ()):
+                    base = inline_locals(ff, it.func.value)
+                    if isinstance(base, ast.Dict) and base.keys and all(k is not None and const_str(k) is not None for k in base.keys):
+                        okd = True
+                    if isinstance(base, ast.Call) and isinstance(base.func, ast.Name) and base.func.id == "dict" and not base.args and base.keywords and all(k.arg for k in base.keywords):
+                        okd = True
+                oks.append(okd)
+            if oks and all(oks):
+                return True
     ps = ff.paths(e, spine_only=True)
     return bool(ps) and all(p.atom.kind == "const" and p.atom.name not in ("[]", "()", "{}", "fstring") and all(o.kind in ("elt", "iter", "unpack") for o in p.ops) for p in ps)
 
